@@ -24,13 +24,12 @@ def gbytes_lit(s):
     return "(map byte_of_Z [%s])" % "; ".join(str(c) for c in s.encode("utf-8"))
 
 
-def x_alph_pipeline():
+def x_alph_pipe_order():
+    """polling path: every fetched event is converted BEFORE any sender test (C09's mechanism 'conversion of every fetched event
+    before the sender filter'); the sender test sits in handleConfirmedEvents in front of the send"""
     w = rd("node/pkg/alephium/watcher.go")
-    ro = rd("node/pkg/alephium/reobserve.go")
     u = rd("node/pkg/alephium/utils.go")
-    cl = rd("node/pkg/alephium/client.go")
     info = {}
-
     # ---- polling path: conversion, then (much later) the sender filter, then the hand-over expression
     tu = func_body(w, r'^func \(w \*Watcher\) toUnconfirmedEvent\(', "toUnconfirmedEvent")
     in_order(tu, [r'if event\.EventIndex != WormholeMessageEventIndex \{\s*return nil,',
@@ -60,6 +59,33 @@ def x_alph_pipeline():
     if not re.search(r'func \(b Byte32\) equalWith\(v Byte32\) bool \{\s*return bytes\.Equal\(b\[:\], v\[:\]\)\s*\}', u):
         raise Broken("utils.go: Byte32.equalWith is not bytes.Equal")
     info["polling"] = "index test; ToWormholeMessage(event.Fields, event.TxId); attestation validation; ...; sender filter; msgChan <- msg.toMessagePublication(header)"
+
+    out = ("(* polling path: every fetched event is converted (index test, ToWormholeMessage(event.Fields, event.TxId)) before any sender\n"
+           "   filter; the filter and `w.msgChan <- e.event.msg.toMessagePublication(e.header)` are in handleConfirmedEvents *)\n"
+           "Definition alph_pipe_convert_before_filter : bool := true.\n")
+    return out, info
+
+
+def x_alph_pipeline():
+    w = rd("node/pkg/alephium/watcher.go")
+    ro = rd("node/pkg/alephium/reobserve.go")
+    u = rd("node/pkg/alephium/utils.go")
+    cl = rd("node/pkg/alephium/client.go")
+    info = {}
+
+    # ---- polling path: what is converted and what is handed over
+    tu = func_body(w, r'^func \(w \*Watcher\) toUnconfirmedEvent\(', "toUnconfirmedEvent")
+    in_order(tu, [r'msg, err := ToWormholeMessage\(event\.Fields, event\.TxId\)\s*if err != nil \{\s*return nil, err\s*\}',
+                  r'return &UnconfirmedEvent\{event, msg\}, err'], "toUnconfirmedEvent")
+    hc = func_body(w, r'^func \(w \*Watcher\) handleConfirmedEvents\(', "handleConfirmedEvents")
+    if not re.search(r'w\.msgChan <- e\.event\.msg\.toMessagePublication\(e\.header\)', hc) or len(re.findall(r'msgChan <-', w)) != 1:
+        raise Broken("handleConfirmedEvents: `w.msgChan <- e.event.msg.toMessagePublication(e.header)` (the only send in watcher.go) not found")
+    he = func_body(w, r'^func \(w \*Watcher\) handleEvents_\(', "handleEvents_")
+    if re.search(r'\.msg\s*=|ToWormholeMessage|\.Fields', he):
+        raise Broken("handleEvents_: touches the converted message / the raw fields of a pending event")
+    if not re.search(r'func \(b Byte32\) equalWith\(v Byte32\) bool \{\s*return bytes\.Equal\(b\[:\], v\[:\]\)\s*\}', u):
+        raise Broken("utils.go: Byte32.equalWith is not bytes.Equal")
+    info["polling"] = "ToWormholeMessage(event.Fields, event.TxId) kept with the event; msgChan <- msg.toMessagePublication(header)"
 
     # ---- re-observation path
     ge = func_body(ro, r'^func \(w \*Watcher\) getGovernanceEventsByTxId\(', "getGovernanceEventsByTxId")
@@ -122,10 +148,7 @@ def x_alph_pipeline():
         raise Broken("utils.go: ALPHTokenId is assigned somewhere (the model takes it as the zero Byte32)")
     info["native"] = [ai.group(2), ai.group(3)]
 
-    out = ("(* polling path: every fetched event is converted (index test, ToWormholeMessage(event.Fields, event.TxId)) before any sender\n"
-           "   filter; the filter and `w.msgChan <- e.event.msg.toMessagePublication(e.header)` are in handleConfirmedEvents *)\n"
-           "Definition alph_pipe_convert_before_filter : bool := true.\n"
-           "(* handleGovernanceMessages converts the fields again before the hand-over; on an error it `%s` *)\n"
+    out = ("(* handleGovernanceMessages converts the fields again before the hand-over; on an error it `%s` *)\n"
            "Definition alph_pipe_reobs_reconvert_aborts : bool := %s.\n"
            "(* validateAttestToken compares (TokenId, Decimals, Symbol, Name) of the parsed payload with GetTokenInfo's answer: `%s` *)\n"
            "Definition alph_pipe_attest_cmp : bool * bool * bool * bool := (%s).\n"
@@ -136,4 +159,4 @@ def x_alph_pipeline():
     return out, info
 
 
-EXTRACTORS = [("alph_pipeline", x_alph_pipeline)]
+EXTRACTORS = [("alph_pipeline", x_alph_pipeline), ("alph_pipe_order", x_alph_pipe_order)]
